@@ -124,12 +124,14 @@ Section TotalForce.
     | CAngle (g1 g2 g3 : group) (onesite : bool)
     | CDihedral (g1 g2 g3 g4 : group) (onesite : bool)
     | CGyration (ids : list nat)
-    | CRmsd (ids : list nat) (refs : list vec) (center : option vec)
+    | CRmsd (ids : list nat) (refs : list vec) (extra : list (list vec)) (center : option vec)
     | CEigenvector (ids : list nat) (refs : list vec) (evec : list vec) (center : option vec)
+    (* extra = the permuted copies of the reference positions made by the atomPermutation lines of rmsd
+       (symmetry-adapted RMSD): value, gradients and inverse gradients use the copy closest to the positions *)
     (* the default fit of rmsd / eigenvector: centred and optimally rotated onto the reference positions.
        rotf gives rotation::matrix() for the positions of a step and jdf the Jacobian derivative computed from the
        derivatives of the optimal rotation: both are INPUTS of the model (not modelled), taken from the implementation *)
-    | CRmsdRot (ids : list nat) (refs : list vec) (rotf : field -> mat) (jdf : field -> T)
+    | CRmsdRot (ids : list nat) (refs : list vec) (extra : list (list vec)) (rotf : field -> mat) (jdf : field -> T)
     | CEigenvectorRot (ids : list nat) (refs : list vec) (evec : list vec) (rotf : field -> mat) (jdf : field -> T).
 
     (* atoms a component depends on *)
@@ -140,8 +142,8 @@ Section TotalForce.
           gids gm ++ gids gr ++ match gr2 with Some g => gids g | None => [] end
       | CAngle g1 g2 g3 _ => gids g1 ++ gids g2 ++ gids g3
       | CDihedral g1 g2 g3 g4 _ => gids g1 ++ gids g2 ++ gids g3 ++ gids g4
-      | CGyration ids | CRmsd ids _ _ | CEigenvector ids _ _ _ => ids
-      | CRmsdRot ids _ _ _ | CEigenvectorRot ids _ _ _ _ => ids
+      | CGyration ids | CRmsd ids _ _ _ | CEigenvector ids _ _ _ => ids
+      | CRmsdRot ids _ _ _ _ | CEigenvectorRot ids _ _ _ _ => ids
       end.
 
     (* atoms whose total force a component reads (read_total_forces in calc_force_invgrads) *)
@@ -155,8 +157,8 @@ Section TotalForce.
           end
       | CAngle g1 g2 g3 os => if os then gids g1 else gids g1 ++ gids g3
       | CDihedral g1 g2 g3 g4 os => if os then gids g1 else gids g1 ++ gids g4
-      | CGyration ids | CRmsd ids _ _ | CEigenvector ids _ _ _ => ids
-      | CRmsdRot ids _ _ _ | CEigenvectorRot ids _ _ _ _ => ids
+      | CGyration ids | CRmsd ids _ _ _ | CEigenvector ids _ _ _ => ids
+      | CRmsdRot ids _ _ _ _ | CEigenvectorRot ids _ _ _ _ => ids
       end.
 
     (* ---- distance ---- *)
@@ -239,6 +241,14 @@ Section TotalForce.
     Fixpoint vsub_list (l r : list vec) : list vec :=
       match l, r with a :: l', b :: r' => vsub a b :: vsub_list l' r' | _, _ => [] end.
     Definition norm2_sum (l : list vec) : T := tsum (map vnorm2 l).
+    (* rmsd::calc_value with atomPermutation: the copy of the reference with the smallest sum of squared
+       displacements from the positions fp; a later copy wins only if strictly smaller *)
+    Fixpoint best_copy (fp : list vec) (cur : list vec) (extra : list (list vec)) : list vec :=
+      match extra with
+      | [] => cur
+      | c :: r => if nltb O (norm2_sum (vsub_list fp c)) (norm2_sum (vsub_list fp cur))
+                  then best_copy fp c r else best_copy fp cur r
+      end.
 
     Definition gyr_pos (ids : list nat) : list vec := frame_pos ids (Some vzero).
     Definition gyr_value (ids : list nat) : T :=
@@ -266,13 +276,18 @@ Section TotalForce.
     (* rotated frame: R (pos - cog) + cog of the reference positions *)
     Definition rot_frame (ids : list nat) (refs : list vec) (R : mat) : list vec :=
       let c := cog ids in let rc := vmean refs in map (fun a => vadd (mvmul R (vsub (pos a) c)) rc) ids.
-    Definition rmsdrot_diff (ids : list nat) (refs : list vec) (R : mat) : list vec := vsub_list (rot_frame ids refs R) refs.
-    Definition rmsdrot_value (ids : list nat) (refs : list vec) (R : mat) : T :=
-      nsqrt O (norm2_sum (rmsdrot_diff ids refs R) / ofnat (length ids)).
-    Definition rmsdrot_grads (ids : list nat) (refs : list vec) (R : mat) : list vec :=
-      let x := rmsdrot_value ids refs R in
+    (* r = the copy of the reference the rotated positions are compared with (refs itself without atomPermutation) *)
+    Definition rmsdrot_diff (ids : list nat) (refs : list vec) (R : mat) (r : list vec) : list vec := vsub_list (rot_frame ids refs R) r.
+    Definition rmsdrot_value (ids : list nat) (refs : list vec) (R : mat) (r : list vec) : T :=
+      nsqrt O (norm2_sum (rmsdrot_diff ids refs R r) / ofnat (length ids)).
+    Definition rmsdrot_grads (ids : list nat) (refs : list vec) (R : mat) (r : list vec) : list vec :=
+      let x := rmsdrot_value ids refs R r in
       let k := if nltb O zero x then half / (x * ofnat (length ids)) else zero in
-      map (fun d => vscale (k * two) d) (rmsdrot_diff ids refs R).
+      map (fun d => vscale (k * two) d) (rmsdrot_diff ids refs R r).
+    Definition rmsd_best (ids : list nat) (refs : list vec) (extra : list (list vec)) (center : option vec) : list vec :=
+      best_copy (frame_pos ids center) refs extra.
+    Definition rmsdrot_best (ids : list nat) (refs : list vec) (extra : list (list vec)) (R : mat) : list vec :=
+      best_copy (rot_frame ids refs R) refs extra.
     Fixpoint dot_list (l r : list vec) : T :=
       match l, r with a :: l', b :: r' => vdot a b + dot_list l' r' | _, _ => zero end.
 
@@ -288,9 +303,9 @@ Section TotalForce.
           let n1 := vcross r12 r23 in let n2 := vcross r23 r34 in
           deg * natan2 O (vdot n1 r34 * vnorm r23) (vdot n1 n2)
       | CGyration ids => gyr_value ids
-      | CRmsd ids refs center => rmsd_value ids refs center
+      | CRmsd ids refs extra center => rmsd_value ids (rmsd_best ids refs extra center) center
       | CEigenvector ids refs evec center => dot_list (vsub_list (frame_pos ids center) refs) (eig_vec evec)
-      | CRmsdRot ids refs rotf _ => rmsdrot_value ids refs (rotf pos)
+      | CRmsdRot ids refs extra rotf _ => rmsdrot_value ids refs (rotf pos) (rmsdrot_best ids refs extra (rotf pos))
       | CEigenvectorRot ids refs evec rotf _ => dot_list (vsub_list (rot_frame ids refs (rotf pos)) refs) (eig_vec evec)
       end.
 
@@ -336,14 +351,15 @@ Section TotalForce.
       | CGyration ids =>
           let drdx := one / (ofnat (length ids) * gyr_value ids) in
           aapply ids (map (vscale drdx) (gyr_pos ids)) fc
-      | CRmsd ids refs center =>
-          let g := rmsd_grads ids refs center in
+      | CRmsd ids refs extra center =>
+          let g := rmsd_grads ids (rmsd_best ids refs extra center) center in
           fadd (aapply ids g fc) (aapply ids (fit_grads (length ids) center g) fc)
       | CEigenvector ids refs evec center =>
           let g := eig_vec evec in
           fadd (aapply ids g fc) (aapply ids (fit_grads (length ids) center g) fc)
       (* apply_colvar_force with f_ag_rotate: forces rotated back with the inverse rotation; no fit gradients *)
-      | CRmsdRot ids refs rotf _ => aapply ids (map (mtvmul (rotf pos)) (rmsdrot_grads ids refs (rotf pos))) fc
+      | CRmsdRot ids refs extra rotf _ =>
+          aapply ids (map (mtvmul (rotf pos)) (rmsdrot_grads ids refs (rotf pos) (rmsdrot_best ids refs extra (rotf pos)))) fc
       | CEigenvectorRot ids refs evec rotf _ => aapply ids (map (mtvmul (rotf pos)) (eig_vec evec)) fc
       end.
 
@@ -380,13 +396,13 @@ Section TotalForce.
       | CGyration ids =>
           let dxdr := one / gyr_value ids in
           adot ids (map (vscale dxdr) (gyr_pos ids)) F
-      | CRmsd ids refs center =>
-          adot ids (rmsd_grads ids refs center) F * ofnat (length ids)
+      | CRmsd ids refs extra center =>
+          adot ids (rmsd_grads ids (rmsd_best ids refs extra center) center) F * ofnat (length ids)
       | CEigenvector ids refs evec center =>
           adot ids (map (vscale (eig_invnorm2 evec)) (eig_vec evec)) F
       (* read_total_forces rotates the atomic forces into the frame of the gradients *)
-      | CRmsdRot ids refs rotf _ =>
-          adot ids (rmsdrot_grads ids refs (rotf pos)) (frot (rotf pos) F) * ofnat (length ids)
+      | CRmsdRot ids refs extra rotf _ =>
+          adot ids (rmsdrot_grads ids refs (rotf pos) (rmsdrot_best ids refs extra (rotf pos))) (frot (rotf pos) F) * ofnat (length ids)
       | CEigenvectorRot ids refs evec rotf _ =>
           adot ids (map (vscale (eig_invnorm2 evec)) (eig_vec evec)) (frot (rotf pos) F)
       end.
@@ -403,12 +419,12 @@ Section TotalForce.
           pi / nofZ O 180 * (if neqb O theta zero then zero else ncos O theta / nsin O theta)
       | CDihedral _ _ _ _ _ => zero
       | CGyration ids => inv_or_zero (nofZ O 3 * ofnat (length ids) - nofZ O 4) (gyr_value ids)
-      | CRmsd ids refs center =>
-          let x := rmsd_value ids refs center in
+      | CRmsd ids refs extra center =>
+          let x := rmsd_value ids (rmsd_best ids refs extra center) center in
           let tr := match center with Some _ => nofZ O 3 | None => zero end in
           if nltb O zero x then (nofZ O 3 * ofnat (length ids) - one - tr - zero) / x else zero
       | CEigenvector _ _ _ _ => zero    (* no rotation: the projection is linear in the coordinates *)
-      | CRmsdRot _ _ _ jdf | CEigenvectorRot _ _ _ _ jdf => jdf pos
+      | CRmsdRot _ _ _ _ jdf | CEigenvectorRot _ _ _ _ jdf => jdf pos
       end.
 
     (* ------------------------------------------------------------------ the variable *)
